@@ -181,6 +181,10 @@ def chains(rich=False, nested=True, three=True):
             producers.append((pt, f"Select(ds, lambda {e}: First(Select({e}.jets, lambda {j5}: {src})))"))
         pt, src = build_pkg(kind, [("I", f"{j5}.pt"), ("T", f"{j5}.tr")])
         producers.append((pt, f"Select(ds, lambda {e}: First(Select({e}.jets, lambda {j5}: {src})))"))
+        # ... of a SelectMany whose body builds the packages
+        j6, t6 = nm.fresh("j"), nm.fresh("t")
+        pt, src = build_pkg(kind, [("I", f"{t6}.q"), ("I", f"{j6}.pt")])
+        producers.append((pt, f"Select(ds, lambda {e}: First(SelectMany({e}.jets, lambda {j6}: Select({j6}.tr, lambda {t6}: {src}))))"))
 
     for pt, psrc in producers:
         for style in ((0, 1) if _has_dict(pt) else (0,)):
